@@ -41,6 +41,7 @@ type Prog struct {
 	monotone   map[string]*GuardDecl // "typeName.field"
 	fvTargets  map[string][]*ssa.Function
 	rules      []*Rule
+	ghostGlobals map[string]*GhostField
 }
 
 func relKey(fn *ssa.Function) string {
@@ -208,6 +209,12 @@ func (p *Prog) loadLibSpecs(dir string) error {
 		for _, pf := range sf.Pures {
 			p.pures[pf.Name] = pf
 		}
+		for _, g := range sf.Globals {
+			if p.ghostGlobals == nil {
+				p.ghostGlobals = map[string]*GhostField{}
+			}
+			p.ghostGlobals[g.Name] = g
+		}
 		p.lemmas = append(p.lemmas, sf.Lemmas...)
 	}
 	return nil
@@ -264,6 +271,12 @@ func (p *Prog) indexSpecs() error {
 				p.monotone = map[string]*GuardDecl{}
 			}
 			p.monotone[qual(g.Recv)+"."+g.Field] = g
+		}
+		for _, g := range sf.Globals {
+			if p.ghostGlobals == nil {
+				p.ghostGlobals = map[string]*GhostField{}
+			}
+			p.ghostGlobals[g.Name] = g
 		}
 		p.lemmas = append(p.lemmas, sf.Lemmas...)
 		p.rules = append(p.rules, sf.Rules...)
